@@ -105,7 +105,7 @@ reg('C19',
     deadline={'quick': 100, 'thorough': 1500},
     level=MC,
     technique='bounded-exhaustive enumeration of all expression bodies up to length L x index x capacity on the real expression API (ASan), compared with a reference list grammar',
-    rule={'quick': 'every expression body of length <= 6 over {1 2 - . : , ! @ blank A} between parentheses, queried at every index 0..9 (0..4 for length 6) through the three numeric-list entry functions and through the channel-list function with every capacity 0..4 (exact-size heap value arrays), plus generated lists of 1..8 entries x 1..5 dimensions with every range placement; non-trivial = body that is a well-formed numeric or channel list',
+    rule={'quick': 'every expression body of length <= 6 over {1 2 - . : , ! @ blank A E +} between parentheses, queried at every index 0..9 (0..4 for length 6) through the three numeric-list entry functions and through the channel-list function with every capacity 0..4 (exact-size heap value arrays), plus generated lists of 1..8 entries x 1..5 dimensions with every range placement and lists of long numbers with signed exponents and blanks at the exponent mark; non-trivial = body that is a well-formed numeric or channel list',
           'thorough': 'as quick with bodies of length <= 7'},
     assumptions=['lazy validation is accepted: entry i may be reported OK when the body starts with i+1 well-formed comma-separated entries, whatever follows',
                  'for a malformed numeric list both NO_MORE and ERROR are accepted where OK is not allowed; for a malformed channel list only ERROR with -170',
@@ -197,7 +197,7 @@ reg('C08',
     deadline={'quick': 100, 'thorough': 1500},
     level=MC,
     technique='exhaustive enumeration of input segmentations (schedules) of bounded streams on the real SCPI_Input (ASan, tail-poisoned buffer), differential against the byte-at-a-time schedule',
-    rule={'quick': 'streams: every concatenation of 1..3 messages of a 14-message alphabet (block with embedded NL and ;, quoted string with embedded ; and with embedded NL, empty units, CR LF, bare CR, undefined header, missing parameter, dangling comma, trailing blanks, exponent number, common+compound), optionally followed by an unterminated unit (5 tails); schedules: EVERY partition for streams <= 14 bytes, else every partition with <= 2 cut points + every uniform chunk size + all-at-once, in a 256-byte and an exactly-fitting input buffer, against one byte per call; plus the zero-length-call clause on every prefix; non-trivial = every schedule run (each is compared with the reference schedule)',
+    rule={'quick': 'streams: every concatenation of 1..3 messages of a 16-message alphabet (block with embedded NL and ; as first and as second parameter, block with NUL bytes, quoted string with embedded ; and with embedded NL, empty units, CR LF, bare CR, undefined header, missing parameter, dangling comma, trailing blanks, exponent number, common+compound), optionally followed by an unterminated unit (5 tails); schedules: EVERY partition for streams <= 14 bytes, else every partition with <= 2 cut points + every uniform chunk size + all-at-once, in a 256-byte and an exactly-fitting input buffer, against one byte per call; plus the zero-length-call clause on every prefix; non-trivial = every schedule run (each is compared with the reference schedule)',
           'thorough': 'streams of 1..4 messages, also in the static-heap build'},
     assumptions=['return values of the individual SCPI_Input calls are not compared (they are per call, not per message)',
                  'known finding: a line terminator inside a quoted string is acted on when the chunk boundary falls inside the string (known_findings.txt)'],
